@@ -741,7 +741,9 @@ Proof.
   assert (default_hasher bw_stream1 = bw_hash1) as H1 by (vm_compute; reflexivity).
   assert (default_hasher bw_stream2 = bw_hash2) as H2 by (vm_compute; reflexivity).
   assert (bw_hash1 <> bw_hash2) as Hd by (vm_compute; discriminate).
-  repeat split; try (vm_compute; reflexivity); try exact Hd.
-  - intros E. apply Hd. rewrite <- H1, <- H2, E. reflexivity.
-  - intros a b [<-|[<-|[]]] [<-|[<-|[]]] E; try reflexivity; exfalso; rewrite ?H1, ?H2 in E; [apply Hd; exact E|apply Hd; symmetry; exact E].
+  split; [vm_compute; reflexivity|]. split; [vm_compute; reflexivity|]. split; [vm_compute; reflexivity|].
+  split; [vm_compute; reflexivity|]. split; [vm_compute; reflexivity|].
+  split; [intros E; apply Hd; rewrite <- H1, <- H2, E; reflexivity|]. split; [exact Hd|].
+  intros a b [<-|[<-|[]]] [<-|[<-|[]]] E; try reflexivity; exfalso; rewrite ?H1, ?H2 in E;
+    [apply Hd; exact E|apply Hd; symmetry; exact E].
 Qed.
